@@ -45,6 +45,7 @@ class Capture(logging.Handler):
 CAP = Capture()
 BOUNDARY = "<<check_errors>>"
 TRY_DEPTH = {"n": 0, "error_inside": 0}
+UNSUP: list = []   # every message passed to Generator.unsupported (also by inner generators of composite dialects)
 
 
 def install_seams():
@@ -76,6 +77,13 @@ def install_seams():
             TRY_DEPTH["n"] -= 1
 
     Parser._try_parse = _try_parse
+    orig_unsup = Generator.unsupported
+
+    def unsupported(self, message):
+        UNSUP.append(message)
+        return orig_unsup(self, message)
+
+    Generator.unsupported = unsupported
     orig_raise = Parser.raise_error
 
     def raise_error(self, *a, **k):
@@ -172,12 +180,12 @@ def judge_parse(sql, dialect, max_errors):
                 if d.get("description") and d["description"] not in msg:
                     probs.append(("raise_errors", f"RAISE error {d.get('description')!r} does not correspond to logged {msg[:60]!r}"))
                     break
-        rendered = str(e).split("\n\n")
-        want = min(len(E), max_errors) + (1 if len(E) > max_errors else 0)
-        if len(rendered) != want:
-            probs.append(("max_errors", f"message renders {len(rendered)} blocks, expected {want} for {len(E)} errors and max_errors={max_errors}"))
-        if (len(E) > max_errors) != rendered[-1].startswith("... and "):
-            probs.append(("max_errors", "'... and n more' tail present iff more errors than max_errors violated"))
+        # the documented rendering, computed from what WARN logged (one log line per collected error): the first max_errors
+        # messages and, iff there are more, a "... and n more" tail (the messages themselves may contain blank lines)
+        want_msg = "\n\n".join(E[:max_errors] + ([f"... and {len(E) - max_errors} more"] if len(E) > max_errors else []))
+        if str(e) != want_msg:
+            probs.append(("max_errors", f"message renders {str(e)[:80]!r}..., expected the first {min(len(E), max_errors)} of {len(E)} logged errors"
+                                        + (" and a '... and n more' tail" if len(E) > max_errors else "")))
     if (om[0] == "parse_error") != bool(E):
         probs.append(("immediate_iff", f"IMMEDIATE {'raised' if om[0] == 'parse_error' else 'returned'} but WARN logged {len(E)} error(s)"))
     elif E and orr[0] == "parse_error" and orr[1].errors:
@@ -192,8 +200,10 @@ def judge_generate(tree, target, max_unsupported):
     for lvl in LEVELS:
         g = D.generator(unsupported_level=lvl, max_unsupported=max_unsupported)
         CAP.records.clear()
+        UNSUP.clear()
         try:
-            out[lvl] = ("ok", g.generate(tree.copy()), list(g.unsupported_messages), [m for l, m in CAP.records if l == logging.WARNING])
+            sql_out = g.generate(tree.copy())
+            out[lvl] = ("ok", sql_out, list(g.unsupported_messages), list(UNSUP) or list(g.unsupported_messages))
         except UnsupportedError as e:
             out[lvl] = ("unsupported", str(e), list(g.unsupported_messages), [])
         except RecursionError:
@@ -208,8 +218,8 @@ def judge_generate(tree, target, max_unsupported):
     texts = {o[1] for o in (oi, ow, orr) if o[0] == "ok"}
     if len(texts) > 1:
         probs.append(("gen_text_differs", "IGNORE / WARN / RAISE return different SQL"))
-    # what WARN logged at WARNING level during generation (composite dialects delegate to an inner
-    # generator, so the outer instance's unsupported_messages list is not the reference)
+    # the messages passed to Generator.unsupported under WARN (composite dialects delegate to an inner generator, so the outer
+    # instance's list is not the reference; plain logger.warning calls of transforms are not "unsupported" reports)
     W = ow[3]
     if (orr[0] == "unsupported") != bool(W):
         probs.append(("gen_raise_iff", f"RAISE {'raised' if orr[0] == 'unsupported' else 'returned'}, WARN recorded {len(W)} unsupported message(s)"))
@@ -353,6 +363,27 @@ def run(ctx: Ctx) -> None:
         scripts = ["; ".join(SCRIPT_PARTS[n] for n in combo) for ln in (1, 2, 3) for combo in itertools.product(names, repeat=ln)]
         plan.append(("parse", d, k1 + muts + muts1 + scripts))
         plan.append(("reuse", d, [SCRIPT_PARTS[n] for n in ("A", "bad_early", "bad_spec", "bad_late", "B")]))
+    # every statement of the repository's dialect tests in its own dialect: as written and with every single-token deletion /
+    # duplication (parse relation), and generated into the main targets (quick) / every target (thorough)
+    by_d = {}
+    for d, sql in corpus.dialect_test_sql():
+        by_d.setdefault(d, []).append(sql)
+    main_targets = ["", "duckdb", "snowflake", "bigquery", "tsql", "mysql", "postgres", "spark", "oracle", "clickhouse", "sqlite", "presto"]
+    for d, sqls in sorted(by_d.items()):
+        D = Dialect.get_or_raise(d or None)
+        for i in range(0, len(sqls), 100):
+            chunk = sqls[i:i + 100]
+            muts = []
+            for s_ in chunk:
+                try:
+                    spans = [(t.start, t.end + 1) for t in D.tokenize(s_)]
+                except Exception:
+                    continue
+                for a, b in spans:
+                    muts.append(s_[:a] + s_[b:])
+                    muts.append(s_[:b] + " " + s_[a:b] + s_[b:])
+            plan.append(("parse", d, chunk + muts))
+            plan.append(("generate", d, chunk, sorted(set(main_targets + [d])) if quick else all_dialects()))
     targets = all_dialects()
     for src in (GEN_SOURCES if quick else dialects):
         k1 = [s for c, s, t in statements(src, 1)]
@@ -380,7 +411,9 @@ def run(ctx: Ctx) -> None:
             "rule": "states = (input, dialect, level) runs; inputs = G_core k<=1, every 1-token mutant (delete / duplicate / insert of 20 menu "
                     "tokens) of the simplest seeds and a slice of k=1, every script of <= 3 statements over 7 parts (valid, invalid early / "
                     "late / inside a speculative branch / twice, empty), x max_errors {1,3}; generation of G_core k<=1 trees from 7 source "
-                    "dialects into all 34 targets x 4 levels x max_unsupported {1,3}; reuse histories of length 3 on one Parser. "
+                    "dialects into all 34 targets x 4 levels x max_unsupported {1,3}; every statement of tests/dialects/*.py in its own dialect "
+                    "(as written + every 1-token deletion / duplication for the parse relation; generated into 12 main targets in quick, all "
+                    "in thorough); reuse histories of length 3 on one Parser. "
                     "non-trivial = inputs for which WARN logged errors / generations that recorded unsupported messages.",
             "inputs_with_error_inside_speculative_branch": res["spec"],
             "generations_with_unsupported": res["gen_unsupported"],
